@@ -1,14 +1,14 @@
 package main
 
 import (
-	"go/ast"
-	"strconv"
 	"fmt"
+	"go/ast"
 	"go/constant"
 	"go/token"
 	"go/types"
 	"math/big"
 	"sort"
+	"strconv"
 	"strings"
 
 	"golang.org/x/tools/go/ssa"
@@ -27,32 +27,32 @@ type retEdge struct {
 }
 
 type loopInfo struct {
-	header *ssa.BasicBlock
-	blocks map[*ssa.BasicBlock]bool
-	ord    int
-	auto   []*Clause
-	entryT map[*ssa.Phi]string
+	header    *ssa.BasicBlock
+	blocks    map[*ssa.BasicBlock]bool
+	ord       int
+	auto      []*Clause
+	entryT    map[*ssa.Phi]string
 	headState *State
 	headVals  map[*ssa.Phi]Val
 }
 
 // Frame executes one function body (top-level or inlined).
 type Frame struct {
-	fx       *Fx
-	fn       *ssa.Function
-	key      string
-	vals     map[ssa.Value]Val
-	contract *Contract
-	depth    int
-	entry    *State
-	params   map[string]Val
-	defers   []*ssa.Defer
-	rets     []retEdge
-	top      bool
-	stack    []string
-	loops    map[*ssa.BasicBlock]*loopInfo
-	debugRef map[string][]*ssa.DebugRef
-	mutSet   map[ssa.Value]bool
+	fx         *Fx
+	fn         *ssa.Function
+	key        string
+	vals       map[ssa.Value]Val
+	contract   *Contract
+	depth      int
+	entry      *State
+	params     map[string]Val
+	defers     []*ssa.Defer
+	rets       []retEdge
+	top        bool
+	stack      []string
+	loops      map[*ssa.BasicBlock]*loopInfo
+	debugRef   map[string][]*ssa.DebugRef
+	mutSet     map[ssa.Value]bool
 	curLoopHdr *ssa.BasicBlock
 	evalBlock  *ssa.BasicBlock // block at which a loop assert is evaluated (name resolution)
 	useHead    bool            // resolve loop-carried names to their values at the loop head
